@@ -12,9 +12,9 @@ namespace rc = romea::core;
 
 namespace {
 
-enum OpKind {CONSTRUCT = 0, CONSTRUCT_ANCHOR, SET_ANCHOR, RESET, TOENU_GEO, TOENU_WGS84, TOENU_ECEF, TOECEF, TOWGS84, OBSERVE, SET_OWN_ANCHOR};
+enum OpKind {CONSTRUCT = 0, CONSTRUCT_ANCHOR, SET_ANCHOR, RESET, TOENU_GEO, TOENU_WGS84, TOENU_ECEF, TOECEF, TOWGS84, OBSERVE, SET_OWN_ANCHOR, COPY};
 const char * kOpName[] = {"ENUConverter()", "ENUConverter(anchor)", "setAnchor", "reset", "toENU(geodetic)", "toENU(WGS84)", "toENU(ecef)",
-  "toECEF(enu)", "toWGS84(enu)", "isAnchored/getEnuToEcefTransform", "setAnchor(getAnchor())"};
+  "toECEF(enu)", "toWGS84(enu)", "isAnchored/getEnuToEcefTransform", "setAnchor(getAnchor())", "continue on a copy"};
 
 struct Op
 {
@@ -80,6 +80,10 @@ Outcome runHistory(const Plan & p, Ctx & c)
   std::unique_ptr<rc::ENUConverter> conv(new rc::ENUConverter());
   bool anchored = false; Geo anchor {0, 0, 0};   // the model: un-anchored, or anchored at `anchor`
   bool everReset = false, reanchored = false; size_t no = 0;
+  // a bystander: another converter anchored once at a fixed place; nothing done to the subject may move it
+  const Geo byAnchor {0.6L, -1.1L, 120.0L};
+  rc::ENUConverter bystander(rc::makeGeodeticCoordinates((double)byAnchor.lat, (double)byAnchor.lon, (double)byAnchor.h));
+  const Eigen::Affine3d byT = bystander.getEnuToEcefTransform();
 
   auto geoOf = [](const Geo & g) {return rc::makeGeodeticCoordinates((double)g.lat, (double)g.lon, (double)g.h);};
   auto v3 = [](const Eigen::Vector3d & v) {return V3 {v.x(), v.y(), v.z()};};
@@ -130,7 +134,7 @@ Outcome runHistory(const Plan & p, Ctx & c)
       }
       // reference -> origin ; h above -> (0,0,h)
       {
-        Eigen::Vector3d z = conv->toENU(geoOf(anchor));
+        Eigen::Vector3d z = (no & 1) ? conv->toENU(conv->getAnchor()) : conv->toENU(geoOf(anchor));
         if (!(z.norm() <= (double)kMillimetre)) {return Outcome::fail("reference-not-at-origin", fmt("after op #%zu: the anchor maps to (%.6g, %.6g, %.6g)", no, z.x(), z.y(), z.z()));}
         double hh = op.u;
         Eigen::Vector3d a = conv->toENU(rc::makeGeodeticCoordinates((double)anchor.lat, (double)anchor.lon, (double)anchor.h + hh));
@@ -195,6 +199,9 @@ Outcome runHistory(const Plan & p, Ctx & c)
         if (anchored) {SIM_PROBE("set_anchor_replaces_existing_frame");}
         conv->setAnchor(geoOf(ga)); if (everReset) {reanchored = true;}
         anchored = true; anchor = ga; SIM_COUNT("op.setAnchor"); break;
+      case COPY:
+        // the (implicit) copy constructor carries flag, anchor and frame over; the history continues on the copy
+        conv.reset(new rc::ENUConverter(*conv)); SIM_PROBE("continue_on_a_copy"); break;
       case SET_OWN_ANCHOR:
         // the argument aliases the converter's own stored anchor: the frame must simply stay what it is
         conv->setAnchor(conv->getAnchor()); SIM_PROBE("set_anchor_with_own_anchor_reference"); break;
@@ -252,6 +259,10 @@ Outcome runHistory(const Plan & p, Ctx & c)
         anchored ? fmt("anchored at (%.12Lg, %.15Lg, %.6Lg)", anchor.lat, anchor.lon, anchor.h).c_str() : "un-anchored"));
     }
     Outcome o = checkFrame(op); if (!o.ok) {return o;}
+    if (!bystander.isAnchored() || !(bystander.getEnuToEcefTransform().matrix() == byT.matrix()) ||
+      !(bystander.toENU(rc::makeGeodeticCoordinates((double)byAnchor.lat, (double)byAnchor.lon, (double)byAnchor.h)).norm() <= (double)kMillimetre)) {
+      return Outcome::fail("bystander-converter-changed", fmt("after op #%zu (%s) on the subject, another converter anchored elsewhere no longer has its own frame", no, kOpName[op.kind]));
+    }
   }
   return Outcome::pass();
 }
@@ -319,7 +330,7 @@ struct PropC02
     for (int k = 0; k < n; ++k) {
       Op o; drawAnchor(r, lonStyle, o); drawLocal(r, o);
       if (r.chance(pReset)) {o.kind = RESET;} else {
-        static const int kinds[] = {CONSTRUCT, CONSTRUCT_ANCHOR, SET_ANCHOR, SET_ANCHOR, TOENU_GEO, TOENU_GEO, TOENU_WGS84, TOENU_WGS84, TOENU_ECEF, TOECEF, TOWGS84, TOWGS84, OBSERVE, SET_OWN_ANCHOR};
+        static const int kinds[] = {CONSTRUCT, CONSTRUCT_ANCHOR, SET_ANCHOR, SET_ANCHOR, TOENU_GEO, TOENU_GEO, TOENU_WGS84, TOENU_WGS84, TOENU_ECEF, TOECEF, TOWGS84, TOWGS84, OBSERVE, SET_OWN_ANCHOR, COPY};
         o.kind = r.pick(kinds);
       }
       p.ops.push_back(o);
@@ -400,7 +411,7 @@ struct PropC02
   std::string signature(const Plan & p, const Outcome & o) const
   {
     std::string s = o.cls + "|";
-    for (auto & op : p.ops) {s += "CASRgwetloa"[op.kind];}
+    for (auto & op : p.ops) {s += "CASRgwetloac"[op.kind];}
     return s;
   }
   std::vector<uint64_t> sampleIndexes() const
@@ -413,7 +424,7 @@ struct PropC02
   {
     return {"set_anchor_replaces_existing_frame", "reset_of_unanchored_converter", "auto_anchor_after_reset", "auto_anchor_of_fresh_converter",
       "auto_anchor_wgs84_after_reset", "frame_checked_after_reset_and_reanchor", "anchor_within_0.1rad_of_antimeridian", "anchor_beyond_80deg_latitude",
-      "local_point_beyond_90km", "set_anchor_with_own_anchor_reference"};
+      "local_point_beyond_90km", "set_anchor_with_own_anchor_reference", "continue_on_a_copy"};
   }
   Json describe() const
   {
